@@ -151,6 +151,9 @@ type scen struct {
 	cbDelay []time.Duration
 	cbCalls atomic.Int64
 	primary *vkit.ProbeStream[int]
+	// cleanup: streams the library never obtained stay the caller's: closed by the harness after the
+	// outermost Close / the reducer has returned.
+	cleanup []func()
 }
 
 func newScen(conc bool, rnd *vkit.Rand) *scen {
@@ -476,6 +479,9 @@ func drive(s *scen, b built, ctx context.Context, dead context.Context, deadFrom
 			}
 			last = b.reduce(ctx)
 			o.CloseRet = s.clock.Tick()
+			for _, f := range s.cleanup {
+				f()
+			}
 			return
 		}
 		count := 0
@@ -508,6 +514,9 @@ func drive(s *scen, b built, ctx context.Context, dead context.Context, deadFrom
 		o.CloseCall = s.clock.Tick()
 		b.close()
 		o.CloseRet = s.clock.Tick()
+		for _, f := range s.cleanup {
+			f()
+		}
 	})
 	pre := ""
 	if b.reduce != nil {
